@@ -39,6 +39,16 @@ def strict_equal(x, y):
     return compare_strict(x, y)
 
 
+def diff_ignore(*args, **kwargs):
+    """Always returns an empty diff"""
+    return []
+
+
+def _is_ignored(config, path):
+    "Whether the differ configured for path ignores everything there."
+    return path in config.differs and config.differs[path] is diff_ignore
+
+
 def default_predicates():
     return defaultdict2(lambda: (compare_strict,), {})
 
@@ -232,7 +242,8 @@ def diff_dicts(a, b, path="", config=None):
 
     # Sorting keys in loops to get a deterministic diff result
     for key in sorted(akeys - bkeys):
-        di.remove(key)
+        if not _is_ignored(config, "/".join((path, key))):
+            di.remove(key)
 
     # Handle values for keys in both a and b
     for key in sorted(akeys & bkeys):
@@ -258,6 +269,7 @@ def diff_dicts(a, b, path="", config=None):
                 di.replace(key, bvalue)
 
     for key in sorted(bkeys - akeys):
-        di.add(key, b[key])
+        if not _is_ignored(config, "/".join((path, key))):
+            di.add(key, b[key])
 
     return di.validated()
